@@ -48,9 +48,14 @@ CFG = Cfg(min_obj=1, max_obj=4, max_terms=3, max_target=4, max_exp=2,
 def st_case(draw):
     cfg = Cfg(**CFG.__dict__)
     # one ADC variant per expression: a single rank for each amplitude name
+    from ..gen import CAT_BY_NAME
     cfg.rank_override = {
         "X": [draw(st.sampled_from([(1, 1), (2, 2), (2, 1), (1, 2)]))],
         "Y": [draw(st.sampled_from([(1, 1), (2, 2), (1, 0), (0, 1)]))]}
+    # a block name (<name>_<space>) does not encode the upper/lower split:
+    # one rank per tensor name and expression, as in every real use
+    for nm in ("A", "B", "C", "R", "t2"):
+        cfg.rank_override[nm] = [draw(st.sampled_from(CAT_BY_NAME[nm][2]))]
     base = draw(st_expr_case(cfg))
     if draw(st.integers(0, 11)) == 0:   # refused: sqrt prefactor
         base["terms"][0]["sqrt"] = draw(st.sampled_from([2, 3, 6]))
